@@ -1,30 +1,21 @@
 import Stackage.Model.Alias
 import Stackage.Model.Options
 import Stackage.Lemmas.Push
+import Stackage.Lemmas.Alias
+import Stackage.Lemmas.AliasEq
+import Stackage.Lemmas.DefragMap
 
 /-!
 # C12 — user-defined aliases of Stack and Condition behave as the native types
 
 `erase` replaces every alias form (alias value, alias with its own String method, non-nil pointer
 to an alias) by the native form. Each theorem says that an observation of a tree equals the same
-observation of its all-native twin (`IsEqual` and `Defrag` are added in `Props/C05`, `Props/C19`).
+observation of its all-native twin. The helper lemmas for `IsEqual` are in `Lemmas/AliasEq.lean`, those
+for `Defrag` in `Lemmas/DefragMap.lean`, the basic facts about `erase` in `Lemmas/Alias.lean`.
 -/
 
 set_option linter.unusedSimpArgs false
 namespace Stackage
-
-theorem erase_isNil (v : Val) : (erase v).isNil = v.isNil := by cases v <;> simp [erase, Val.isNil]
-theorem erase_isStack (v : Val) : (erase v).isStack = v.isStack := by cases v <;> simp [erase, Val.isStack]
-theorem erase_isCond (v : Val) : (erase v).isCond = v.isCond := by cases v <;> simp [erase, Val.isCond]
-
-theorem eraseList_length : ∀ xs : List Val, (eraseList xs).length = xs.length
-  | [] => rfl
-  | _ :: rest => by simp [eraseList, eraseList_length rest]
-
-theorem eraseList_getD : ∀ (xs : List Val) (p : Nat), (eraseList xs).getD p .nil = erase (xs.getD p .nil)
-  | [], p => by simp [eraseList, erase]
-  | x :: rest, 0 => by simp [eraseList]
-  | x :: rest, p + 1 => by simpa [eraseList] using eraseList_getD rest p
 
 theorem condValid_erase (K : Closures) (c : Cfg) (kw : Text) (op : Op) (ex : Val) :
     condValid K c kw op (erase ex) = condValid K c kw op ex := by
@@ -95,14 +86,6 @@ theorem C12_unmarshal (s : Stk) : s.erase.unmarshal = eraseList s.unmarshal := b
   unfold Stk.unmarshal Stk.erase; simp only [eraseList, unmarshalElems_erase, erase, strV]
 
 /-! ## IsNesting, Condition.Len, no-nesting refusal, Transfer, converters -/
-
-theorem countsAsNested_erase (v : Val) : Stk.countsAsNested (erase v) = Stk.countsAsNested v := by
-  cases v <;> simp [erase, Stk.countsAsNested]
-
-theorem any_erase (xs : List Val) : (eraseList xs).any Stk.countsAsNested = xs.any Stk.countsAsNested := by
-  induction xs with
-  | nil => rfl
-  | cons x rest ih => simp only [eraseList, List.any_cons, countsAsNested_erase, ih]
 
 theorem C12_isNesting (s : Stk) : s.erase.IsNesting = s.IsNesting := by
   unfold Stk.IsNesting Stk.erase; exact any_erase s.xs
@@ -182,5 +165,144 @@ theorem C12_traverse (K : Closures) (p : List Int) : ∀ s : Stk,
 example : let t : Stk := ⟨{ kind := 1 }, [.stk .alias { kind := 2 } [.leaf (.str ['a']),
               .cnd .ptr { kind := 5 } ['k'] (.cmp 1) (.stk .aliasS { kind := 4 } [.leaf (.int 1)])]]⟩
           t.erase.String {} = t.String {} := C12_string {} _
+
+/-! ## IsEqual -/
+
+/-- `erase` is idempotent: the native twin of a native twin is itself -/
+theorem C12_erase_idem (v : Val) : erase (erase v) = erase v := erase_idem v
+
+/-- `valuesEqual` on two stack slots / two condition expressions gives, on a pair of trees with alias forms
+anywhere (as Stack elements, as Condition expressions, also inside `[]any` leaves), the answer it gives on the
+all-native twins. `HookBlind`: the user's EqualityPolicy closures are themselves form-blind (see its doc comment;
+`C12_isEqual_noPolicy` needs no such hypothesis when the receiver's tree has no EqualityPolicy). -/
+theorem C12_veq (hook : EqHook) (hh : HookBlind hook) (x y : Val) :
+    Val.veq hook (erase x) (erase y) = Val.veq hook x y := Val.veq_erase hook hh x y
+
+/-- … and so does the slot loop of `stack.isEqual` -/
+theorem C12_stkLoop (hook : EqHook) (hh : HookBlind hook) (xs ys : List Val) :
+    stkLoop hook (eraseList xs) (eraseList ys) = stkLoop hook xs ys := stkLoop_erase hook hh xs ys
+
+/-- the private `stack.isEqual` (pointer short-cut, capacity / length, kind, slots) -/
+theorem C12_stack_isEqual (hook : EqHook) (hh : HookBlind hook) (same : Bool) (r o : Stk) :
+    Stk.isEqual hook same r.erase o.erase = Stk.isEqual hook same r o := by
+  simp only [Stk.isEqual, Stk.erase, eraseList_length, stkLoop_erase hook hh]
+
+/-- the private `condition.isEqual` (keyword, operator, expression) -/
+theorem C12_cond_isEqual (hook : EqHook) (hh : HookBlind hook) (kw : Text) (op : Op) (ex : Val) (kw' : Text) (op' : Op) (ex' : Val) :
+    condIsEqual hook kw op (erase ex) kw' op' (erase ex') = condIsEqual hook kw op ex kw' op' ex' := by
+  simp only [condIsEqual, Val.veq_erase hook hh]
+
+/-- **The exported `Stack.IsEqual` / `Condition.IsEqual`**: receiver and argument in any form, holding aliases at
+any depth, against each other — the result (equal, the error class, or a panic) is that of the two all-native trees. -/
+theorem C12_isEqual (hook : EqHook) (hh : HookBlind hook) (same : Bool) (a b : Val) :
+    Val.IsEqual hook same (erase a) (erase b) = Val.IsEqual hook same a b := Val.IsEqual_erase hook hh same a b
+
+/-- "in both directions", 1: the alias tree as receiver, a native tree as argument -/
+theorem C12_isEqual_right (hook : EqHook) (hh : HookBlind hook) (same : Bool) (a b : Val) :
+    Val.IsEqual hook same a (erase b) = Val.IsEqual hook same (erase a) (erase b) := by
+  have := C12_isEqual hook hh same a (erase b)
+  rw [erase_idem] at this
+  exact this.symm
+
+/-- "in both directions", 2: a native tree as receiver, the alias tree as argument -/
+theorem C12_isEqual_left (hook : EqHook) (hh : HookBlind hook) (same : Bool) (a b : Val) :
+    Val.IsEqual hook same (erase a) b = Val.IsEqual hook same (erase a) (erase b) := by
+  have := C12_isEqual hook hh same (erase a) b
+  rw [erase_idem] at this
+  exact this.symm
+
+/-- comparing an alias tree with the native twin of another tree is comparing the two alias trees … -/
+theorem C12_isEqual_alias_native (hook : EqHook) (hh : HookBlind hook) (same : Bool) (a b : Val) :
+    Val.IsEqual hook same a (erase b) = Val.IsEqual hook same a b := by
+  rw [C12_isEqual_right hook hh, C12_isEqual hook hh]
+
+/-- … in either argument position -/
+theorem C12_isEqual_native_alias (hook : EqHook) (hh : HookBlind hook) (same : Bool) (a b : Val) :
+    Val.IsEqual hook same (erase a) b = Val.IsEqual hook same a b := by
+  rw [C12_isEqual_left hook hh, C12_isEqual hook hh]
+
+/-- an alias tree is equal to its own native twin exactly when it is equal to itself (both directions) -/
+theorem C12_isEqual_twin (hook : EqHook) (hh : HookBlind hook) (same : Bool) (a : Val) :
+    Val.IsEqual hook same a (erase a) = Val.IsEqual hook same a a ∧
+    Val.IsEqual hook same (erase a) a = Val.IsEqual hook same a a :=
+  ⟨C12_isEqual_alias_native hook hh same a a, C12_isEqual_native_alias hook hh same a a⟩
+
+/-- the same for an arbitrary hook, under a decidable hypothesis instead of `HookBlind`: no EqualityPolicy is
+installed in the receiver's tree (then no closure is ever called) -/
+theorem C12_isEqual_noPolicy (hook : EqHook) (same : Bool) (a b : Val) (ha : noEqPolicy a = true) :
+    Val.IsEqual hook same (erase a) (erase b) = Val.IsEqual hook same a b :=
+  Val.IsEqual_erase_noPolicy hook same a b ha
+
+/-- non-vacuity of `HookBlind`: a closure that compares what the two instances render (through `String()`, which
+is form-blind by `C12_string`) is form-blind, and it is not a constant -/
+example : HookBlind (fun p a b => if exprRaw {} a = exprRaw {} b then none else some (.user p)) := by
+  intro p a b; simp only [exprRaw_erase]
+
+/-- … and `HookBlind` is not idle: a closure that looks at the form of an element (a Go type switch on
+`r.Index(0)`) does tell the alias tree from its twin -/
+example :
+    let peek : EqHook := fun _ a _ => match a with | .stk _ _ (.stk .alias _ _ :: _) => some (.user 1) | _ => none
+    let a : Val := .stk .native { kind := 1, eqf := some 1 } [.stk .alias { kind := 1 } []]
+    (Val.IsEqual peek false a a).toOption = some (some (.user 1)) ∧
+    (Val.IsEqual peek false (erase a) (erase a)).toOption = some none := by decide
+
+/-- non-vacuity: two independently built trees with different forms at every nesting site (element, Condition
+expression, nested element; a `[]any` leaf, a nil, an EqualityPolicy-free configuration) are equal, in all four
+combinations with their native twins; a difference in one leaf is reported, in all four combinations -/
+example :
+    let a : Val := .stk .alias { kind := 1 } [.leaf (.str ['a']),
+       .cnd .ptr { kind := 5 } ['k'] (.cmp 1) (.stk .aliasS { kind := 4 } [.leaf (.int 1)]),
+       .anys [.leaf (.int 2)], .stk .ptr { kind := 2 } [.nil, .leaf (.bool true)]]
+    let b : Val := .stk .ptr { kind := 1 } [.leaf (.str ['a']),
+       .cnd .alias { kind := 5 } ['k'] (.cmp 1) (.stk .native { kind := 4 } [.leaf (.int 1)]),
+       .anys [.leaf (.int 2)], .stk .alias { kind := 2 } [.nil, .leaf (.bool true)]]
+    let c : Val := .stk .ptr { kind := 1 } [.leaf (.str ['a']),
+       .cnd .alias { kind := 5 } ['k'] (.cmp 1) (.stk .native { kind := 4 } [.leaf (.int 7)]),
+       .anys [.leaf (.int 2)], .stk .alias { kind := 2 } [.nil, .leaf (.bool true)]]
+    let h : EqHook := fun _ _ _ => none
+    noEqPolicy a = true ∧
+    (Val.IsEqual h false a b).toOption = some none ∧ (Val.IsEqual h false a (erase b)).toOption = some none ∧
+    (Val.IsEqual h false (erase a) b).toOption = some none ∧ (Val.IsEqual h false (erase a) (erase b)).toOption = some none ∧
+    (Val.IsEqual h false a c).toOption = some (some .primMismatch) ∧
+    (Val.IsEqual h false (erase a) c).toOption = some (some .primMismatch) ∧
+    (Val.IsEqual h false a (erase c)).toOption = some (some .primMismatch) := by decide +kernel
+
+/-- non-vacuity for the `[]any` clause (no hypothesis on `[]any` leaves is needed): a handle inside a `[]any` leaf is
+never opened by `slicesEqual`, whatever its form — "Unsupported type" on the alias trees and on the twins alike -/
+example :
+    let a : Val := .stk .native { kind := 1 } [.anys [.stk .ptr { kind := 1 } []]]
+    let b : Val := .stk .native { kind := 1 } [.anys [.stk .aliasS { kind := 1 } []]]
+    let h : EqHook := fun _ _ _ => none
+    (Val.IsEqual h false a b).toOption = some (some .unsupported) ∧
+    (Val.IsEqual h false (erase a) (erase b)).toOption = some (some .unsupported) := by decide +kernel
+
+/-! ## Defrag -/
+
+/-- the list-level `stack.defrag(max)`: same faults, same error class, the twin of the same list -/
+theorem C12_defrag_list (s : Stk) (max : Int) : s.erase.defrag max = (s.defrag max).map Stk.erase :=
+  Stk.defrag_erase s max
+
+/-- **The exported `Stack.Defrag(max...)`** on a tree with alias forms at any depth (nested Stacks, Stack
+expressions of nested Conditions) does to it what it does to the native twin: for every recursion budget and every
+argument list the result on the twin is the twin of the result (and a panic / an exhausted budget on one side is
+the same panic / exhausted budget on the other). No length hypothesis is needed: `stack.defrag` commutes with every
+element map that preserves nil-ness (`Stk.defrag_map`), by following the definition. -/
+theorem C12_defrag (fuel : Nat) (args : List Int) (s : Stk) :
+    Stk.Defrag fuel args s.erase = (Stk.Defrag fuel args s).map Stk.erase :=
+  Stk.Defrag_erase fuel args s
+
+/-- non-vacuity: a fragmented tree with an alias stack holding a pointer-to-alias Condition whose expression is an
+alias stack is really compacted (the first slot, nil before, holds the nested Stack after; it keeps its form), within the
+budget -/
+example :
+    let s : Stk := ⟨{ kind := 1 }, [.nil, .stk .alias { kind := 2 } [.leaf (.int 1), .nil,
+        .cnd .ptr { kind := 5 } ['k'] (.cmp 1) (.stk .aliasS { kind := 4 } [.nil, .leaf (.int 1)])], .nil, .leaf (.str ['z'])]⟩
+    (s.xs.headD .nil).isNil = true ∧
+    (match Stk.Defrag 5 [] s with
+      | .ok r => (match r.xs.headD .nil with | .stk .alias _ (_ :: .cnd .ptr _ _ _ _ :: _) => true | _ => false)
+      | .error _ => false) = true ∧
+    (match Stk.Defrag 5 [] s.erase with
+      | .ok r => (match r.xs.headD .nil with | .stk .native _ (_ :: .cnd .native _ _ _ _ :: _) => true | _ => false)
+      | .error _ => false) = true := by decide
 
 end Stackage
